@@ -60,7 +60,7 @@ class Endpoint:
             g = self.disp_gate
             if g is not None:
                 self.disp_held.set()
-                g.wait(10)
+                g.wait(300)
             try:
                 return orig(source, block)
             finally:
@@ -76,7 +76,7 @@ class Endpoint:
                     g = ep.clear_gate
                     if g is not None:
                         ep.at_clear.set()
-                        g.wait(10)
+                        g.wait(300)
                     super().clear()
             self.p._thread._receiver_thread_trigger = GatedEvent()
 
@@ -98,7 +98,7 @@ class Endpoint:
             self.c.on_disconnected({"source": self.c})
             done.set()
         threading.Thread(target=closer, daemon=True).start()
-        return done.wait(bound)
+        return M.wait_event(done, bound)
 
     def out_tags(self):
         return ["sep" if b.header.s_type.value == 9 else "reply" for b in self.c.frames()]
@@ -172,7 +172,7 @@ def cut_scenario(res, pre: bytes, stream: bytes, off: int, state: str, wait_quie
         with ep.c.lock:
             raw = b"".join(ep.c.sent)
         return any(b.header.s_type.value == 2 and b.header.system == 4242 for b in M.split_frames(raw))
-    ok = M.wait_until(lambda: ep.state() == ConnectionState.CONNECTED_SELECTED and answered(), 3.0 if wait_quiescent else 1.5)
+    ok = M.wait_until(lambda: ep.state() == ConnectionState.CONNECTED_SELECTED and answered(), 3.0 if late == 0 else 1.5, must=(late == 0))
     if late > 0:
         time.sleep(0.05)          # let late handlers of the old connection show what they do
     frames = ep.c.frames()
@@ -313,7 +313,7 @@ def raising_listener_case(res, pre: bytes, stream: bytes, off: int, state: str):
                 raised.append(type(exc).__name__)
         done.set()
     threading.Thread(target=closer, daemon=True).start()
-    if not done.wait(CLOSE_BOUND):
+    if not M.wait_event(done, CLOSE_BOUND):
         res.bump("close_hangs", "n")
         res.violate("c09-close-hang", f"close sequence did not finish within {CLOSE_BOUND:.0f} s (application listener raises)", case)
         return
@@ -416,7 +416,7 @@ def witness_send_failure(res, drv):
     ep.p._settings.timeouts.t6 = 1
     ep.clear_gate = threading.Event()
     threading.Thread(target=ep.p.send_linktest_req, daemon=True).start()      # queues item 1, sets the trigger
-    if not ep.at_clear.wait(3):
+    if not M.wait_event(ep.at_clear, 3):
         res.notes.append("witness send-failure: receiver thread did not reach clear(); witness not replayed")
         return
     ep.c.send_result = False                                                  # from now on send_data fails
@@ -430,7 +430,7 @@ def witness_send_failure(res, drv):
     M.wait_until(lambda: ep.p._send_queue.qsize() == 2, 2.0)
     g, ep.clear_gate = ep.clear_gate, None
     g.set()
-    finished = done.wait(CLOSE_BOUND)
+    finished = M.wait_event(done, CLOSE_BOUND)
     res.count(("witness", "send-failure"), sample={"op": "witness replay", "name": "send failure strands the Separate.req", "close_finished": finished})
     res.bump("witness", f"send-failure-strands-queue: close finished={finished}")
     if drv.available:
@@ -459,7 +459,7 @@ def witness_stale_reply(res, drv):
     ep.connect()
     ep.disp_gate = threading.Event()
     ep.feed(SELECT_REQ(9))
-    if not ep.disp_held.wait(3):
+    if not M.wait_event(ep.disp_held, 3):
         res.notes.append("witness stale-reply: dispatcher did not reach the handler; witness not replayed")
         return
     closed = ep.close()
@@ -526,15 +526,20 @@ def disable_established(res, p, case):
 def call_bounded(fn, bound):
     done = threading.Event()
     threading.Thread(target=lambda: (fn(), done.set()), daemon=True).start()
-    return done.wait(bound)
+    return M.wait_event(done, bound)
 
 
 def read_frames(sock, n, timeout):
-    sock.settimeout(timeout)
+    end = time.monotonic() + M.bound(timeout)
     buf = b""
     out = []
     try:
         while len(out) < n:
+            left = end - time.monotonic()
+            if left <= 0:
+                M.STALLS[0] += 1
+                break
+            sock.settimeout(left)
             d = sock.recv(4096)
             if not d:
                 break
@@ -557,18 +562,12 @@ def tcp_passive_case(res, stream, off, case_id):
     if not call_bounded(p.enable, 5):
         res.violate("c09-enable-hang", "enable() did not return within 5 s", case)
         return
-    peer = None
-    for _ in range(50):
-        try:
-            peer = socket.create_connection(("127.0.0.1", port), timeout=1)
-            break
-        except OSError:
-            time.sleep(0.05)
+    peer = connect_peer(port, tries=50)
     if peer is None:
         res.violate("c09-no-listen", "passive endpoint does not accept a connection within 2.5 s of enable()", case)
         call_bounded(p.disable, 5)
         return
-    M.wait_until(lambda: p.connection_state.current != ConnectionState.NOT_CONNECTED, 3.0)
+    M.wait_until(lambda: p.connection_state.current != ConnectionState.NOT_CONNECTED and accept_thread_done(p), 5.0)
     if off:
         peer.sendall(stream[:off])
     time.sleep(0.05)
@@ -582,13 +581,7 @@ def tcp_passive_case(res, stream, off, case_id):
         res.violate("c09-stale-bytes", "receive buffer not empty / connection thread still running 3 s after NOT_CONNECTED", case, 0,
                     {"buffer": len(p._receive_buffer), "thread_running": p._connection._thread_running})
     # new connection, select
-    peer2 = None
-    for _ in range(80):
-        try:
-            peer2 = socket.create_connection(("127.0.0.1", port), timeout=1)
-            break
-        except OSError:
-            time.sleep(0.05)
+    peer2 = connect_peer(port, tries=80)
     if peer2 is None:
         res.violate("c09-no-reconnect", "passive endpoint does not accept a new connection within 4 s after link loss", case)
     else:
@@ -610,7 +603,7 @@ def tcp_active_case(res, stream, off, case_id):
     srv.setsockopt(socket.SOL_SOCKET, socket.SO_REUSEADDR, 1)
     srv.bind(("127.0.0.1", 0))
     srv.listen(2)
-    srv.settimeout(6)
+    srv.settimeout(M.bound(6))
     port = srv.getsockname()[1]
     s = secsgem.hsms.HsmsSettings(address="127.0.0.1", port=port, connect_mode=secsgem.hsms.HsmsConnectMode.ACTIVE, t5=1, t6=2)
     p = secsgem.hsms.HsmsProtocol(s)
@@ -676,7 +669,7 @@ def f13_witness(res, drv):
     in_listener = threading.Event()
     p.events.connected += lambda d: (in_listener.set(), time.sleep(slow))
     p.enable()
-    inside = in_listener.wait(3)
+    inside = M.wait_event(in_listener, 3)
     returned = call_bounded(p.disable, 3)
     classify_f13(res, drv, "client", inside, returned, p, "TTTAAAT")
     # ---- server
@@ -686,14 +679,8 @@ def f13_witness(res, drv):
     in_listener2 = threading.Event()
     p2.events.connected += lambda d: (in_listener2.set(), time.sleep(slow))
     p2.enable()
-    peer = None
-    for _ in range(50):
-        try:
-            peer = socket.create_connection(("127.0.0.1", port2), timeout=1)
-            break
-        except OSError:
-            time.sleep(0.05)
-    inside2 = in_listener2.wait(3)
+    peer = connect_peer(port2, tries=50)
+    inside2 = M.wait_event(in_listener2, 3)
     returned2 = call_bounded(p2.disable, 3)
     classify_f13(res, drv, "server", inside2, returned2, p2, "TTTTTAAATT")
 
@@ -758,19 +745,36 @@ def torn_down(p) -> bool:
     return not p._connection._thread_running and not (rt is not None and rt.is_alive()) and not p._connection._stop_thread
 
 
+def accept_thread_done(p) -> bool:
+    """the thread that accepted / established the current connection has ended (the passive one closes its listening socket as its last
+    act).  Scenarios that are not about that thread's tail wait for this before the connection is closed again: a close that overtakes
+    it is the recorded finding c09-relisten-bind-race (`early_close_witness`)."""
+    return not diag(p)["accept_or_connect_thread_alive"]
+
+
 def connect_peer(port, tries=60):
-    for _ in range(tries):
+    """connect to the endpoint's port; retried until the load-proof bound (nominal: tries x 50 ms)"""
+    end = time.monotonic() + M.bound(tries * 0.05)
+    while True:
         try:
-            return socket.create_connection(("127.0.0.1", port), timeout=1)
+            c = socket.create_connection(("127.0.0.1", port), timeout=5)
+            if c.getsockname() != c.getpeername():          # not a TCP self-connect to a port nobody listens on
+                return c
+            c.close()
         except OSError:
-            time.sleep(0.05)
-    return None
+            pass
+        if time.monotonic() >= end:
+            M.STALLS[0] += 1
+            return None
+        time.sleep(0.05)
 
 
 def select_on(peer, p, system):
     peer.sendall(SELECT_REQ(system))
     got = read_frames(peer, 1, 3.0)
     sel = M.wait_until(lambda: p.connection_state.current == ConnectionState.CONNECTED_SELECTED, 3.0)
+    if getattr(p._connection, "_server_thread", None) is not None:
+        M.wait_until(lambda: accept_thread_done(p), 5.0)
     return bool(got) and got[0].header.s_type.value == 2 and got[0].header.system == system and sel, got
 
 
@@ -852,7 +856,7 @@ def idle_cycle_case(res, active: bool):
         srv.setsockopt(socket.SOL_SOCKET, socket.SO_REUSEADDR, 1)
         srv.bind(("127.0.0.1", port))
         srv.listen(1)
-        srv.settimeout(6)
+        srv.settimeout(M.bound(6))
     if not call_bounded(p.enable, 5):
         res.violate("c09-enable-hang", "second enable() did not return within 5 s", case)
         return
@@ -908,16 +912,19 @@ def overlap_witness(res, drv):
         res.violate("c09-reselect", "first connection could not be established / selected", case)
         call_bounded(p.disable, 5)
         return
+    # the server thread that accepted `peer` closes its listening socket as its last act; until then a connect would still reach THAT
+    # listener's backlog (and never be accepted).  The witness is about the listener being restarted, so wait for the old one to be gone.
+    listener_gone = M.wait_until(lambda: not diag(p)["accept_or_connect_thread_alive"], 10.0)
     gate, at_stop = threading.Event(), threading.Event()
     real_stop = p._thread.stop
 
     def held_stop():
         at_stop.set()
-        gate.wait(6)
+        gate.wait(300)
         return real_stop()
     p._thread.stop = held_stop
     peer.close()
-    if not at_stop.wait(4):
+    if not M.wait_event(at_stop, 4):
         res.notes.append("witness relisten-overlaps-teardown: the old connection's thread did not reach ProtocolDispatcher.stop(); not replayed")
         p._thread.stop = real_stop
         gate.set()
@@ -984,7 +991,7 @@ def abortive_close_case(res, active: bool):
         srv.setsockopt(socket.SOL_SOCKET, socket.SO_REUSEADDR, 1)
         srv.bind(("127.0.0.1", port))
         srv.listen(1)
-        srv.settimeout(6)
+        srv.settimeout(M.bound(6))
     p = secsgem.hsms.HsmsProtocol(secsgem.hsms.HsmsSettings(address="127.0.0.1", port=port, connect_mode=mode, t5=5, t6=2))
     if not call_bounded(p.enable, 5):
         res.violate("c09-enable-hang", "enable() did not return within 5 s", case)
@@ -1022,8 +1029,54 @@ def abortive_close_case(res, active: bool):
         srv.close()
 
 
+def early_close_witness(res, drv):
+    """A peer connects to the passive endpoint and closes again while the `on_connected` listeners still run (a `connected` listener that
+    takes 0.6 s).  The closed connection's thread then restarts the listener while the server thread that accepted it still holds the
+    listening socket: bind fails with EADDRINUSE, the new server thread dies, and the endpoint never listens again."""
+    port = free_port()
+    p = secsgem.hsms.HsmsProtocol(secsgem.hsms.HsmsSettings(address="127.0.0.1", port=port, connect_mode=secsgem.hsms.HsmsConnectMode.PASSIVE))
+    in_listener = threading.Event()
+    p.events.connected += lambda d: (in_listener.set(), time.sleep(0.6))
+    case = {"kind": "witness", "name": "relisten-bind-race"}
+    if not call_bounded(p.enable, 5):
+        res.violate("c09-enable-hang", "enable() did not return within 5 s", case)
+        return
+    peer = connect_peer(port)
+    if peer is None:
+        res.violate("c09-no-listen", "passive endpoint does not accept a connection within 3 s of enable()", case)
+        call_bounded(p.disable, 5)
+        return
+    inside = M.wait_event(in_listener, 3)
+    peer.close()                                             # … while the accepting thread is still in the listener
+    M.wait_until(lambda: p.connection_state.current == ConnectionState.NOT_CONNECTED and torn_down(p) and accept_thread_done(p), 8.0)
+    time.sleep(0.3)                                          # the restarted server thread (if it lives) binds and listens within this
+    st = getattr(p._connection, "_server_thread", None)
+    listening = bool(st and st.is_alive())
+    peer2 = connect_peer(port, tries=40) if listening else None
+    ok = False
+    if peer2 is not None:
+        ok, _ = select_on(peer2, p, 3)
+    res.count(("witness", "early-close"), sample={"op": "witness replay", "name": "peer connects and closes during the on_connected listeners",
+                                                  "closed_inside_listener": inside, "listens_again": listening, "new_connection_selected": ok})
+    res.bump("witness", f"relisten-bind-race: closed inside listener={inside} listens again={listening} selected={ok}")
+    if not ok:
+        actual = {"closed_inside_listener": inside, "server_thread_alive": listening, **diag(p)}
+        if inside and not listening:
+            res.violate("c09-relisten-bind-race", "a peer that connects and closes again while the on_connected listeners run: the listener is "
+                        "restarted while the accepting thread still holds the listening socket (EADDRINUSE), the new server thread dies, the "
+                        "endpoint never listens again", case, "listens again, new connection selected", actual)
+        else:
+            res.violate("c09-no-reconnect", "after a connect-and-close the passive endpoint does not accept / select a new connection", case,
+                        "listens again, new connection selected", actual)
+    M.wait_until(lambda: accept_thread_done(p), 3.0)
+    call_bounded(p.disable, 5)
+    if peer2 is not None:
+        peer2.close()
+
+
 def tcp_part(res, rng, drv, big):
     f13_witness(res, drv)
+    early_close_witness(res, drv)
     abortive_close_case(res, False)
     abortive_close_case(res, True)
     overlap_witness(res, drv)
@@ -1075,7 +1128,7 @@ def main():
                 "bounded. distinct = distinct (state, stream, offset); every case is non-trivial")
     # `--replay`: a replay re-runs the recorded cases and the deterministic sweep; the parts that (can) show the open finding
     # c09-stale-reply-next-connection and the corpus witnesses of repaired findings run only if the replay file is about one of them
-    known = {"c09-relisten-overlaps-teardown", "c09-tcp-disable-hang", "c09-tcp-server-idle-disable-hang", "c09-send-failure-strands-queue", "c09-stale-reply-next-connection"}
+    known = {"c09-relisten-bind-race", "c09-relisten-overlaps-teardown", "c09-tcp-disable-hang", "c09-tcp-server-idle-disable-hang", "c09-send-failure-strands-queue", "c09-stale-reply-next-connection"}
     rec_classes = {v.get("class") for v in recorded}
     replaying = a.replay is not None
     if recorded:
@@ -1087,7 +1140,7 @@ def main():
         M.guarded(res, "witness send failure", lambda: witness_send_failure(res, drv))
     if not replaying or "c09-stale-reply-next-connection" in rec_classes:
         M.guarded(res, "witness stale reply", lambda: witness_stale_reply(res, drv))
-    if not replaying or rec_classes & {"c09-relisten-overlaps-teardown", "c09-tcp-disable-hang", "c09-tcp-server-idle-disable-hang", "c09-disable-hang", "c09-enable-hang", "c09-no-listen", "c09-no-reconnect", "c09-no-connect", "c09-reselect", "c09-state", "c09-no-linktest-rsp", "c09-no-select-req", "c09-close-hang"} \
+    if not replaying or rec_classes & {"c09-relisten-bind-race", "c09-relisten-overlaps-teardown", "c09-tcp-disable-hang", "c09-tcp-server-idle-disable-hang", "c09-disable-hang", "c09-enable-hang", "c09-no-listen", "c09-no-reconnect", "c09-no-connect", "c09-reselect", "c09-state", "c09-no-linktest-rsp", "c09-no-select-req", "c09-close-hang"} \
             or any((v.get("case") or {}).get("kind", "").startswith("tcp") for v in recorded):
         M.guarded(res, "tcp", lambda: tcp_part(res, rng.fork("tcp"), drv, big))
     if replaying:
